@@ -58,6 +58,26 @@ TIE_POOL1 = ["MyInt", "int", "object", ["L", 2], ["L", 1], ["D", "int", "odd"]]
 TIE_VALUES = [["v", 0], ["v", 1], ["v", 2], ["v", 3], ["v", 4], ["mi", 1], ["mi", 2], ["mi", 4]]
 
 
+def _gen_tuple_ties(rng):
+    """overlapping tuple[...] types whose element types cross (tuple[int, object] / tuple[object, int]): no one is more
+    specific, a value matching several is ambiguous whatever the order of anything"""
+    elems = ["int", "object", "str", "MyInt", "bool"]
+    methods, seen = [], set()
+    for i in range(rng.randint(2, 4)):
+        t = ["T", rng.choice(elems), rng.choice(elems)]
+        if T.tname(t) in seen:
+            continue
+        seen.add(T.tname(t))
+        methods.append({"mid": i, "pos": [{"n": "a0", "t": t}], "kw": [], "prio": 0, "kind": "leaf"})
+    methods.append({"mid": 9, "pos": [{"n": "a0", "t": "object"}], "kw": [], "prio": -1, "kind": "leaf"})
+    vals = [["t", ["v", 1], ["v", 2]], ["t", ["v", 1], ["v", "a"]], ["t", ["v", "a"], ["v", 1]], ["t", ["mi", 1], ["v", True]],
+            ["t", ["v", True], ["v", True]], ["t", ["v", "a"], ["v", "b"]], ["t", ["v", 1]], ["v", 1]]
+    spec = {"hier": [], "methods": methods, "npos": 1, "flavour": "tuples", "calls": [{"pos": [v], "kw": {}} for v in vals],
+            "extras": [{"mid": 90, "pos": [{"n": "a0", "t": ["T", "int"]}, {"n": "a1", "t": "int"}], "kw": [], "prio": 0, "kind": "leaf"}],
+            "perm_seeds": [rng.randrange(1 << 30) for _ in range(4)]}
+    return spec
+
+
 def _gen_ties(rng):
     """two positions over a tiny pool: many candidates share their specificity sum, so the order of
     ties in the candidate list decides the grouping (the region of F16)"""
@@ -107,6 +127,8 @@ def _gen_keyed(rng):
 def gen_case(rng, params, idx):
     if idx % 8 == 7:
         return _gen_keyed(rng)
+    if idx % 16 == 3:
+        return _gen_tuple_ties(rng)
     if idx % 4 == 3:
         return _gen_ties(rng)
     flavour = ["static", "union", "dep"][idx % 3]
